@@ -171,17 +171,23 @@ example : reportsDescribe (absCore lT 7 none) (absCore (runD lT lD).1 7 none)
     (toReports (runD lT lD).1 ⟨(runD lT lD).1.ver, 7, none⟩ (runD lT lD).2.1) = true := by decide
 example : KOK lT ∧ HistLinkOK lT [.s lS, .d lD, .c lC, .s ⟨.component, [.get 1], false, false⟩] := by decide
 
-/-- the restrictions `KeepsParent` and "no context state deleted by `write_entity`" in `DLinkOK` are needed:
-    an entity written with another parent is reported with that parent while the table keeps the old one (clause `updated`),
-    and a context state dropped from a written entity disappears without a DELETE part (clause `cstateRemoved`) -/
+/-- the restriction `KeepsParent` in `DLinkOK` is needed: an entity written with another parent is reported with that
+    parent while the table keeps the old one (clause `updated`).
+    (A context state dropped from an entity written through a descriptor transaction is no counterexample any more: since
+    round 2 `reportsDescribe` accepts a context state that disappears because the UPDATE part of its context descriptor
+    does not list it — the consumer removes it, see `mirror_step` — so that restriction of `DLinkOK` is only sufficient.) -/
 theorem descriptor_link_needs_restrictions :
-    ∃ (t : Mdib.Tables) (s1 s2 : DScript), WF t ∧ KOK t ∧ DScriptOK t s1 ∧ DScriptOK t s2 ∧
-      (runD t s1).2.2 = .committed ∧ (runD t s2).2.2 = .committed ∧
+    ∃ (t : Mdib.Tables) (s1 : DScript), WF t ∧ KOK t ∧ DScriptOK t s1 ∧
+      (runD t s1).2.2 = .committed ∧
       reportsDescribe (absCore t 1 none) (absCore (runD t s1).1 1 none)
-        (toReports (runD t s1).1 ⟨(runD t s1).1.ver, 1, none⟩ (runD t s1).2.1) = false ∧
-      reportsDescribe (absCore t 1 none) (absCore (runD t s2).1 1 none)
-        (toReports (runD t s2).1 ⟨(runD t s2).1.ver, 1, none⟩ (runD t s2).2.1) = false :=
-  ⟨lT, ⟨[.writeEntity ⟨3, none, .metric, 0, 5, some 1⟩ none none], false, false⟩,
-   ⟨[.writeEntity ⟨4, some 1, .context, 0, 5, some 1⟩ none (some [])], false, false⟩, by decide⟩
+        (toReports (runD t s1).1 ⟨(runD t s1).1.ver, 1, none⟩ (runD t s1).2.1) = false :=
+  ⟨lT, ⟨[.writeEntity ⟨3, none, .metric, 0, 5, some 1⟩ none none], false, false⟩, by decide⟩
+
+/-- a context entity written without its states: the reports (UPDATE part that lists no state) describe the change -/
+example : reportsDescribe (absCore lT 1 none)
+    (absCore (runD lT ⟨[.writeEntity ⟨4, some 1, .context, 0, 5, some 1⟩ none (some [])], false, false⟩).1 1 none)
+    (toReports (runD lT ⟨[.writeEntity ⟨4, some 1, .context, 0, 5, some 1⟩ none (some [])], false, false⟩).1
+      ⟨(runD lT ⟨[.writeEntity ⟨4, some 1, .context, 0, 5, some 1⟩ none (some [])], false, false⟩).1.ver, 1, none⟩
+      (runD lT ⟨[.writeEntity ⟨4, some 1, .context, 0, 5, some 1⟩ none (some [])], false, false⟩).2.1) = true := by decide
 
 end Sdc.C01
